@@ -841,6 +841,69 @@ func (c *EvalCtx) call(e *ECall) Value {
 			return Bool(s.Obj.Fresh)
 		}
 		return c.fail("fresh of non-reference")
+	case "ownState":
+		// ownState(p, "f1", "f2", …): p points to a struct allocated in this function whose
+		// reference-typed fields (pointer, map, slice, channel) are nil or point to objects that
+		// were allocated in this function too — except the fields listed, which may be shared.
+		// Interface- and function-typed fields must be listed or nil. (C09: a per-user / per-
+		// request handler carries no mutable state shared with its factory or its siblings.)
+		pv, ok := c.eval(arg(0)).(PtrV)
+		if !ok {
+			if iv, isI := c.eval(arg(0)).(IfaceV); isI {
+				pv, ok = iv.V.(PtrV)
+			}
+		}
+		if !ok || pv.Obj == nil || len(pv.Path) != 0 {
+			return TFalse // nil or not a pointer to a whole object (guarded by the clause, e.g. err == nil ==> …)
+		}
+		if !pv.Obj.Fresh {
+			return TFalse
+		}
+		sv, ok := c.e.heapGet(c.st, pv.Obj).(StructV)
+		if !ok {
+			return c.fail("ownState: not a struct")
+		}
+		shared := map[string]bool{}
+		for i := 1; i < len(e.Args); i++ {
+			if lit, ok := c.eval(arg(i)).(StrV); ok && lit.Lit != nil {
+				shared[*lit.Lit] = true
+			} else {
+				return c.fail("ownState: field names must be string literals")
+			}
+		}
+		var conj []*Term
+		for i := 0; i < sv.T.NumFields(); i++ {
+			if shared[sv.T.Field(i).Name()] {
+				continue
+			}
+			switch f := sv.F[i].(type) {
+			case PtrV:
+				if f.Obj != nil && !f.Obj.Fresh {
+					conj = append(conj, f.Nil)
+				}
+			case MapV:
+				if f.Obj != nil && !f.Obj.Fresh {
+					conj = append(conj, f.Nil)
+				}
+			case SliceV:
+				if f.Obj != nil && !(f.Obj.Fresh && f.Obj.MayAlias == nil) {
+					conj = append(conj, f.Nil)
+				}
+			case IfaceV:
+				if p2, isP := f.V.(PtrV); isP && p2.Obj != nil && p2.Obj.Fresh {
+					continue
+				}
+				conj = append(conj, c.e.ifaceNil(f))
+			case FuncV:
+				conj = append(conj, f.Nil)
+			case OpaqueV:
+				switch under(sv.T.Field(i).Type()).(type) {
+				case *types.Pointer, *types.Map, *types.Slice, *types.Chan, *types.Interface, *types.Signature:
+					conj = append(conj, TFalse)
+				}
+			}
+		}
+		return And(conj...)
 	case "sameArray":
 		a, ok1 := c.eval(arg(0)).(SliceV)
 		b, ok2 := c.eval(arg(1)).(SliceV)
